@@ -227,32 +227,79 @@ theorem newQuantity_of_row {db : Db} {c u : Sym} {f : Option Rat} {ci : CatRow} 
     simp [Db.categoryUnitValid, hci, Db.checkQuantityTypeUnit, hget]
   simp [newQuantity, hci, checkedUnit_of_valid hvalid, finishQuantity, hget]
 
-theorem defaultCatOk_spec {db : Db} {r : UnitRow} (h : r.defaultCatOk db = true) :
-    ∃ c ci, getDefaultCategory db r.sym = .ok (some c) ∧ c ≠ 0 ∧ db.catByName c = some ci
-      ∧ ci.qtype = r.qtype ∧ newQuantity db (.str c none) r.sym = .ok ⟨c, r.sym⟩ := by
-  unfold UnitRow.defaultCatOk at h
-  split at h
-  · cases h
-  · rename_i c hc
-    simp only [Bool.and_eq_true, bne_iff_ne, ne_eq, beq_iff_eq] at h
-    obtain ⟨⟨h0, hu⟩, hcat⟩ := h
-    split at hcat
-    · rename_i ci hci
-      have hqt : ci.qtype = r.qtype := by simpa using hcat
-      refine ⟨c, ci, ?_, h0, hci, hqt, newQuantity_of_row hci hu hqt.symm⟩
-      simp [getDefaultCategory, defaultCategoryRow, hu, hc]
-    · cases hcat
+theorem natBeq_eq_beq (a b : Nat) : Nat.beq a b = (a == b) := by
+  apply Bool.eq_iff_iff.mpr
+  rw [Nat.beq_eq, beq_iff_eq]
 
-theorem defaultUnitOk_spec {db : Db} {ci : CatRow} (h : ci.defaultUnitOk db = true) :
-    db.catByName ci.name = some ci
-      ∧ newQuantity db (.str ci.name none) ci.defaultUnit = .ok ⟨ci.name, ci.defaultUnit⟩ := by
+theorem fastCat_eq (c : Sym) : ∀ l : List CatRow, fastCat c l = l.find? (·.name == c)
+  | [] => rfl
+  | x :: xs => by
+    simp only [fastCat, List.find?_cons, fastCat_eq c xs, natBeq_eq_beq]
+    cases h : (x.name == c) <;> rfl
+
+theorem fastUnit_eq (u : Sym) : ∀ l : List UnitRow, fastUnit u l = l.find? (·.sym == u)
+  | [] => rfl
+  | x :: xs => by
+    simp only [fastUnit, List.find?_cons, fastUnit_eq u xs, natBeq_eq_beq]
+    cases h : (x.sym == u) <;> rfl
+
+/-- the row predicate of the unit table, as a proposition about the row -/
+theorem defaultCatOk_spec {db : Db} {r : UnitRow} (h : r.defaultCatOk db = true) :
+    ∃ c ci, rowDefaultCategory db r = some c ∧ c ≠ 0 ∧ db.catByName c = some ci ∧ ci.qtype = r.qtype := by
+  unfold UnitRow.defaultCatOk at h
+  simp only [natBeq_eq_beq, Bool.and_eq_true, Bool.not_eq_true', beq_eq_false_iff_ne, ne_eq] at h
+  obtain ⟨hc0, hm⟩ := h
+  rw [fastCat_eq] at hm
+  split at hm
+  · rename_i ci hci
+    have hq : ci.qtype = r.qtype := by simpa using hm
+    have hci' : db.catByName (bif r.defaultCat == 0 then r.qtype else r.defaultCat) = some ci := hci
+    by_cases hd : r.defaultCat = 0
+    · simp only [hd, beq_self_eq_true, cond_true] at hci' hc0
+      refine ⟨r.qtype, ci, ?_, hc0, hci', hq⟩
+      simp [rowDefaultCategory, hd, hci']
+    · have hb : (r.defaultCat == 0) = false := by simpa using hd
+      simp only [hb, cond_false] at hci' hc0
+      refine ⟨r.defaultCat, ci, ?_, hc0, hci', hq⟩
+      simp [rowDefaultCategory, hd]
+  · cases hm
+
+/-- what the unit table predicate gives for the unit symbol of a row that `unit_to_unit_info` finds -/
+theorem default_quantity_of_row {db : Db} {u : Sym} {r : UnitRow} (hr : db.unitBySym u = some r)
+    (h : r.defaultCatOk db = true) :
+    ∃ c ci, getDefaultCategory db u = .ok (some c) ∧ c ≠ 0 ∧ db.catByName c = some ci ∧ ci.qtype = r.qtype
+      ∧ newQuantity db (.str c none) u = .ok ⟨c, u⟩ := by
+  obtain ⟨c, ci, hc, hc0, hci, hq⟩ := defaultCatOk_spec h
+  refine ⟨c, ci, ?_, hc0, hci, hq, newQuantity_of_row hci hr hq.symm⟩
+  simp [getDefaultCategory, defaultCategoryRow, hr, hc]
+
+/-- every row's symbol is found in the symbol index (by that row or an earlier one of the same symbol) -/
+theorem unitBySym_of_mem {db : Db} {r : UnitRow} (hr : r ∈ db.units) : ∃ r', db.unitBySym r.sym = some r' := by
+  unfold Db.unitBySym
+  cases h : db.units.find? (·.sym == r.sym) with
+  | some r' => exact ⟨r', rfl⟩
+  | none =>
+    have := List.find?_eq_none.mp h r hr
+    simp at this
+
+theorem catByName_of_mem {db : Db} {ci : CatRow} (h : ci ∈ db.cats) : ∃ ci', db.catByName ci.name = some ci' := by
+  unfold Db.catByName
+  cases h' : db.cats.find? (·.name == ci.name) with
+  | some r' => exact ⟨r', rfl⟩
+  | none =>
+    have := List.find?_eq_none.mp h' ci h
+    simp at this
+
+/-- the row predicate of the category table: `Quantity(category, default_unit)` succeeds -/
+theorem defaultUnitOk_spec {db : Db} {c : Sym} {ci : CatRow} (hci : db.catByName c = some ci)
+    (h : ci.defaultUnitOk db = true) :
+    newQuantity db (.str c none) ci.defaultUnit = .ok ⟨c, ci.defaultUnit⟩ := by
   unfold CatRow.defaultUnitOk at h
-  simp only [Bool.and_eq_true, beq_iff_eq] at h
-  obtain ⟨h1, h2⟩ := h
-  split at h2
+  rw [fastUnit_eq] at h
+  split at h
   · rename_i r hr
-    exact ⟨h1, newQuantity_of_row h1 hr (by simpa using h2)⟩
-  · cases h2
+    exact newQuantity_of_row hci hr (by simpa [natBeq_eq_beq] using h)
+  · cases h
 
 /-! ### the constructors, one step at a time -/
 
